@@ -160,12 +160,16 @@ Proof.
       rewrite upe_snoc. apply IH.
 Qed.
 
+Lemma sole_U P : sole_nwdl (map U P) = kf_sole P.
+Proof. destruct P as [|p0 [|p1 P']]; try reflexivity. cbn [map sole_nwdl kf_sole]. apply nwdl_U. Qed.
+
 Lemma fin_ok_U hh P B : kf_fin_ok hh P B = true -> fin_okf hh (map U P) (U B) = true.
 Proof.
-  unfold kf_fin_ok, fin_okf, fin_ok. rewrite double_dot_enc, is_nil_map, wdl_U. intros H.
+  unfold kf_fin_ok, fin_okf, fin_ok2, fin_ok. rewrite double_dot_enc, is_nil_map, wdl_U, sole_U. intros H.
   apply andb_true_iff in H. destruct H as [H1 H2]. rewrite H2, andb_true_r.
   destruct (is_double_dot B); [|reflexivity]. cbn [andb] in *.
-  destruct (last_is_wdl (map U P)) eqn:E; [|reflexivity]. rewrite (last_wdl_U_raw P E) in H1. exact H1.
+  destruct (kf_sole P); [apply orb_true_r|]. cbn [negb] in H1. rewrite andb_true_r in H1. rewrite orb_false_r.
+  destruct (last_is_wdl (map U P)) eqn:E; [|reflexivity]. rewrite (last_wdl_U_raw P E) in H1. discriminate H1.
 Qed.
 
 Lemma fpath_ok_U hh t : forall P B, kf_path_ok hh t P B = true -> fpath_ok hh t (map U P) (U B) = true.
